@@ -358,8 +358,9 @@ prop(
 prop(
     "C16",
     ["LolHtml.Thm.C16_Attrs"],
-    [{"lane": "attrs", "n_quick": 3000, "n_thorough": 32000}],
-    "lane attrs: one start tag (all attribute syntaxes, odd characters, '/' placements, upper case, non-ASCII bytes, html/svg/math context, cut anywhere) through the real HtmlRewriter (element handler: tag_name, attributes(), get/has_attribute, is_self_closing, can_have_content, namespace_uri, locations) vs model + Spec.Attrs; oracle: independent WHATWG attribute parser cross-checked with html5ever",
+    [{"lane": "attrs", "n_quick": 3000, "n_thorough": 32000},
+     {"lane": "edit", "n_quick": 1500, "n_thorough": 15000}],
+    "lane edit (secondary: reads after edits surface in the serialised output); lane attrs: one start tag (all attribute syntaxes, odd characters, '/' placements, upper case, non-ASCII bytes, html/svg/math context, cut anywhere) through the real HtmlRewriter (element handler: tag_name, attributes(), get/has_attribute, is_self_closing, can_have_content, namespace_uri, locations) vs model + Spec.Attrs; oracle: independent WHATWG attribute parser cross-checked with html5ever",
     ["edits (set_attribute / remove_attribute / set_tag_name) followed by reads are package edit's", "the byte-level API model presumes the read accessors decode bijectively (windows-1252 in the lane); BOM-prefixed names/values are a finding"],
     level_text="Lean 4 theorems for every input byte string: the lexer on the generated table follows Spec.Attrs (C16_outline, unfinished, across a chunk break), emit_tag hands exactly that outline to the sink (C16_emit_tag), lookups/context on the token (C16_lookup, C16_context); F8/F9 refuted statements.",
     level_note="Trusted: Lean kernel; Spec.Attrs (WHATWG reading); model tied by lanes lex and attrs.",
